@@ -285,6 +285,7 @@ impl Engine for C13 {
             dup_id_pct: 0,
             mega_1_in: 0,
             twin_mega_1_in: 0,
+            many_1_in: 1500,
         };
         let mut records = g.gen(rng);
         while records.len() < batch {
